@@ -569,7 +569,17 @@ def r37(orig, rule):
     return out
 
 
+def r39(orig, rule):
+    # let mut X: T = repeat(V).take(N).collect();   ->  let mut X: T = { let mut __v = Vec::new(); for __i in 0..N { __v.push(V); } __v };
+    #   (N copies of V)
+    s = norm(orig)
+    m = _m(r'let mut (%s) : (.+?) = repeat \( (.+?) \) \. take \( (.+) \) \. collect \( \) ;' % ID, s)
+    x, ty, v, n = m.groups()
+    return 'let mut %s: %s = { let mut __v = Vec::new(); for __i in 0..%s { __v.push(%s); } __v };' % (x, ty, n, v)
+
+
 GENERATORS = {
+    'R39': r39,
     'R34': r34, 'R35': r35, 'R35t': r35t, 'R36': r36, 'R37': r37,
     'R33': r33,
     'R1b': r1b, 'R1t': r1t, 'R22': r22, 'R23': r23, 'R24': r24, 'R18m': r18m, 'RRET': rret, 'R26': r26, 'R18a': r18a, 'RTY': rty, 'R32': r32, 'R31': r31, 'RVEC': rvec, 'R29': r29, 'R30': r30, 'R30t': r30t, 'R28': r28, 'RPANIC': rpanic,
